@@ -6,12 +6,18 @@ _fg = json.load(open(os.path.join(_c01, 'forms_gen.json')))
 _st = json.load(open(os.path.join(_c01, 'forms_status.json')))
 _sel = [h for h in _fg['harnesses'] if not h.get('known') and _st.get(h['fn'], {}).get('accepted_runs', 0) > 0]
 _NQ = max(1, len(_sel) // 300); _NT = 1
+# D20: query_rw_info understands only the spelling with all implicit operands written out; for the short spelling (mul ecx, imul ecx,
+# pblendvb xmm1, [mem]) it reports the accesses of the leading implicit operands for the explicit ones (or refuses). While D20 is listed,
+# the short-spelling groups are companions of that finding; once it is repaired they are ordinary harnesses again.
+_kf = os.path.join(os.path.dirname(os.path.abspath(__file__)), '..', '..', 'known_findings.jsonl')
+_d20_open = any(l.startswith('{') and json.loads(l)['id'] == 'D20' for l in open(_kf)) and 'D20' not in os.environ.get('VERIF_KF_EXCLUDE', '').split(',')
 HARNESSES = []
 for _i, _h in enumerate(_sel):
     HARNESSES.append(Harness('rw', _h['fn'], unwind=17, tiers=('quick', 'thorough'), mem_gb=4, timeout=600, validate_runs=200,
+                             known='D20' if (_h.get('implicit_omitted') and _d20_open) else None,
                              rotate=((_i * 7877) % _NQ, _NQ), rotate_thorough=((_i * 7883) % _NT, _NT),
                              bounds='instruction %s, %s-bit mode: same symbolic operand space as the C01 harness of the same name (pairwise distinct register ids among same-class operands)' % (_h['inst'], _h['mode'])))
 EXPLANATION = 'bounded symbolic execution of the real InstAPI::query_rw_info against the access marks and io field of the database record'
-OUTSIDE = ['the hardware-semantics half of the property (executing instructions on the host is not solver-based)', 'same-register idioms', 'implicit operands (records with <reg> operands are not generated)',
+OUTSIDE = ['the hardware-semantics half of the property (executing instructions on the host is not solver-based)', 'same-register idioms', 'implicit operands other than registers (string instructions, <mem(...)> operands)',
            'register-or-memory substitution (rm_ops_mask), CPU features and consecutive-register lead counts']
 ASSUMPTIONS = ['the database record is the oracle (db/isa_x86.json), with the errata listed in checks/C01/gen_forms.py']
